@@ -227,6 +227,9 @@ func c20DiffFindings(conv string, want, got map[string]any, what string) []c20Fi
 			var ws, wn, gs, gn int64
 			fmt.Sscanf(d.Want, "t:%d.%d", &ws, &wn)
 			fmt.Sscanf(d.Got, "t:%d.%d", &gs, &gn)
+			if ws == gs && wn%1000000 != 0 && gn == wn/1000000*1000000 && strings.HasSuffix(conv, "Serialize") && !strings.HasSuffix(conv, "Deserialize") {
+				continue // the schema carries milliseconds: truncating finer input is what a serialiser must do
+			}
 			if ws == gs && wn/1000000 == gn {
 				sig = conv + ":time-ms-read-as-ns"
 			}
@@ -279,8 +282,10 @@ func c20MakeExec(r *kit.Run) func(c20MsgCase) kit.Outcome {
 			return o
 		}
 		member := "?"
-		for k := range base.In {
-			if k != "extra" {
+		var probe map[string]json.RawMessage
+		_ = json.Unmarshal(c.Msg, &probe)
+		for k, raw := range probe {
+			if k != "extra" && string(raw) != "null" {
 				member = k
 			}
 		}
@@ -724,8 +729,16 @@ func c20MakePbExec(r *kit.Run) func(c20PbCase) kit.Outcome {
 			return o
 		}
 		member := "?"
-		for _, cl := range o.Classes {
-			member = cl[strings.IndexByte(cl, ':')+1:]
+		{
+			var pm proto.Message = &pbx.ClientMsg{}
+			if c.Side == "server" {
+				pm = &pbx.ServerMsg{}
+			}
+			if proto.Unmarshal(c.Wire, pm) == nil {
+				if fd := pm.ProtoReflect().WhichOneof(pm.ProtoReflect().Descriptor().Oneofs().Get(0)); fd != nil {
+					member = string(fd.Name())
+				}
+			}
 		}
 		for i := range finds {
 			if strings.HasPrefix(finds[i].Sig, "panic:") {
